@@ -1,6 +1,6 @@
 #!/usr/bin/env python3
 """save_seeded.py <wt dir> <name> <verify log section file> <caught-by text>: copy a verified sub-agent mutant into /verif/seeded/<name>/"""
-import json,sys,shutil,os,glob
+import json,sys,shutil,os,glob,subprocess
 wt,name,verify,caught=sys.argv[1:5]
 dst=f'/verif/seeded/{name}'
 os.makedirs(dst,exist_ok=True)
@@ -15,7 +15,7 @@ meta={
  'summary': am.get('summary'),
  'needs_to_manifest': am.get('needs_to_manifest'),
  'files': am.get('files'),
- 'origin': 'written by an independent sub-agent that saw only the property text and a scratch worktree of /repo (commit c18f08f), nothing from /verif',
+ 'origin': 'written by an independent sub-agent that saw only the property text and a scratch worktree of /repo (commit %s), nothing from /verif' % subprocess.run(['git','-C',wt,'rev-parse','--short','HEAD'],capture_output=True,text=True).stdout.strip(),
  'verified_by_me_in_scratch_worktree': open(verify).read().strip().splitlines(),
  'what_i_ran': ['selftest/verify_seeded.sh <worktree> <demo file> <cargo test args> (patch == worktree diff, demo fails with change, 53 baseline tests pass with change, demo passes without change)', 'selftest/run_mutant.sh seeded/<name>/patch.diff <checks> (git -C /repo apply, ./check <ID> quick, git -C /repo checkout -- .)'],
  'detected_by': caught,
